@@ -839,10 +839,17 @@ def run_totals(case, variant):
 # ------------------------------------------------------------------------------------------------
 # exact totals (only for all-explicit feed-forward models owned by the top-level group)
 
-def exact_totals(case):
+def totals_residual(case, tot):
+    """Norm-wise backward error of the totals returned by compute_totals: with A = dr/do (exact,
+    from the component partials) and X = d(outputs)/d(sources) (identity on the source rows),
+    A X = -E.  Returns max|A X + E| / (1 + n max|A| max|X|), which an LU solve keeps at rounding
+    level whatever the conditioning; None when the system is so badly scaled that the bound would
+    not detect anything."""
     k = case['hist'][0][1]
     Jdo, _, n_out, _ = expected_operator(case, k, False)
-    A = [[Jdo.get((r, c), (Fraction(0), Fraction(0)))[0] for c in range(n_out)] for r in range(n_out)]
+    A = np.zeros((n_out, n_out))
+    for (r, c), v in Jdo.items():
+        A[r, c] = float(v[0])
     outs, _ = layout(case)
     start = {}
     q = 0
@@ -851,31 +858,24 @@ def exact_totals(case):
         q += sz
     wrt = ['ivc.' + s['name'] for s in case['srcs']]
     cols = [c for w in wrt for c in range(start[w][0], start[w][0] + start[w][1])]
-    # solve A X = -E[:, cols]
-    n = n_out
-    M = [A[r][:] + [Fraction(-1) if r == c else Fraction(0) for c in cols] for r in range(n)]
-    for col in range(n):
-        piv = next((r for r in range(col, n) if M[r][col] != 0), None)
-        if piv is None:
-            return None
-        M[col], M[piv] = M[piv], M[col]
-        pv = M[col][col]
-        M[col] = [x / pv for x in M[col]]
-        for r in range(n):
-            if r != col and M[r][col] != 0:
-                f = M[r][col]
-                M[r] = [a - f * b for a, b in zip(M[r], M[col])]
-    X = [row[n:] for row in M]
-    res = {}
+    X = np.zeros((n_out, len(cols)))
+    E = np.zeros((n_out, len(cols)))
+    for j, c in enumerate(cols):
+        X[c, j] = 1.0
+        E[c, j] = 1.0
     for of, (o0, osz) in start.items():
         if of.startswith('ivc.'):
             continue
         cq = 0
         for w in wrt:
             wsz = start[w][1]
-            res['%s|%s' % (of, w)] = [[X[o0 + i][cq + j] for j in range(wsz)] for i in range(osz)]
+            X[o0:o0 + osz, cq:cq + wsz] = np.array(tot['%s|%s' % (of, w)]).reshape(osz, wsz)
             cq += wsz
-    return res
+    R = A @ X + E
+    size = float(np.max(np.abs(A)) * np.max(np.abs(X)))
+    if not size <= 1e9:
+        return None                       # badly scaled (unit factors multiply up): not judged
+    return float(np.max(np.abs(R)) / (1.0 + n_out * size))
 
 
 # ------------------------------------------------------------------------------------------------
@@ -941,12 +941,15 @@ def _dec(e):
     return list(zip(re, im))
 
 
-def _close(got, exp, tol):
+def _close(got, exp, tol, scale=None):
+    """Exact equality when `tol` is None; otherwise absolute error at most tol * scale, where
+    `scale` bounds the magnitude of the terms that were summed (cancellation is not amplified)."""
     if len(got) != len(exp):
         return False
     if tol is None:
         return got == exp
-    scale = max([1.0] + [abs(float(e[0])) for e in exp] + [abs(float(e[1])) for e in exp])
+    if scale is None:
+        scale = max([1.0] + [abs(float(e[0])) for e in exp] + [abs(float(e[1])) for e in exp])
     for g, e in zip(got, exp):
         if abs(float(g[0]) - float(e[0])) > tol * scale or abs(float(g[1]) - float(e[1])) > tol * scale:
             return False
@@ -955,6 +958,13 @@ def _close(got, exp, tol):
 
 def _flat(J):
     return [x for row in J for x in row]
+
+
+def _scales(expJ):
+    """(scale for matrix entries, scale for products with the seed vectors |seed| <= 4)."""
+    js = max([1.0] + [abs(float(a)) + abs(float(b)) for row in expJ for a, b in row])
+    ncol = len(expJ[0]) if expJ else 1
+    return js, 4.0 * js * max(1, ncol, len(expJ))
 
 
 class C11(Property):
@@ -987,8 +997,8 @@ class C11(Property):
             "least one observation was made; distinct by canonical case encoding.")
     assumptions = ["values are small integers, unit factors 100/1000 are exact in doubles: comparison is "
                    "exact equality of rationals; cases with a non-dyadic factor (m->km, ->inch) use a "
-                   "relative tolerance of 1e-12 (of the largest entry)",
-                   "compute_totals (an LU solve) is compared at relative 1e-9",
+                   "relative tolerance of 1e-12 (of the largest term: max |J| x |seed| x size)",
+                   "compute_totals (an LU solve) is checked by its norm-wise backward error: max|A X + E| <= 1e-9 (1 + n max|A| max|X|) with the exact dr/do; systems with max|A| max|X| > 1e9 are not judged",
                    "index semantics reference is real NumPy applied level by level; the unit factors are "
                    "the harness's own exact table",
                    "under complex step the matrix-free reverse product is exercised in a quarter of the "
@@ -1069,11 +1079,12 @@ class C11(Property):
             tol = variant_tol(case, v)
             for ob in r['obs']:
                 exp = expected_obs(case, ob['k'], ob['cs'], ob['tag'])
+                jscale, vscale = _scales(exp['J'])
                 for key in ('J', 'fwd', 'rev_o', 'rev_i'):
                     if key not in ob:
                         continue
                     e = _flat(exp['J']) if key == 'J' else exp[key]
-                    if not _close(_dec(ob[key]), e, tol):
+                    if not _close(_dec(ob[key]), e, tol, jscale if key == 'J' else vscale):
                         bad_value.setdefault(v, []).append((ob['tag'], key, ob[key], e))
         if bad_value:
             which = '+'.join(sorted(bad_value))
@@ -1124,31 +1135,22 @@ class C11(Property):
                     which, err, r['stage'], ' under complex step' if cs else ''),
                     'msg': r['msg'], 'sig': {'kind': 'raises', 'variants': which, 'error': err,
                                               'stage': stage, 'cs': cs, 'attributed': attributed}})
-        # totals through the public API
+        # totals through the public API (backward error of the linear solve)
         if 'totals' in impl:
-            ex = exact_totals(case)
             for v, r in impl['totals'].items():
                 if 'error' in r:
                     fails.append({'what': 'compute_totals raised %s with %s' % (r['error'], v),
                                   'msg': r['msg'],
                                   'sig': {'kind': 'totals_raise', 'variants': v, 'error': r['error']}})
                     continue
-                if ex is None:
-                    continue
-                for key, val in r['tot'].items():
-                    e = ex[key]
-                    scale = max([1.0] + [abs(float(x)) for row in e for x in row])
-                    ok = all(abs(a - float(b)) <= 1e-9 * scale
-                             for ra, rb in zip(val, e) for a, b in zip(ra, rb))
-                    if not ok:
-                        att = 'dense_view_scaled_by_factor' if (v == 'dense' and
-                                                                dense_view_hazard(case)) else 'none'
-                        fails.append({'what': 'compute_totals %s differs from the exact total with %s'
-                                              % (key, v), 'got': val,
-                                      'expected': [[float(x) for x in row] for row in e],
-                                      'sig': {'kind': 'totals_mismatch', 'variants': v,
-                                              'attributed': att}})
-                        break
+                res = totals_residual(case, r['tot'])
+                if res is not None and not res <= 1e-9:
+                    att = 'dense_view_scaled_by_factor' if (v == 'dense' and
+                                                            dense_view_hazard(case)) else 'none'
+                    fails.append({'what': 'compute_totals with %s does not solve dr/do X = -E of the '
+                                          'component partials (relative residual %.3g)' % (v, res),
+                                  'got': r['tot'],
+                                  'sig': {'kind': 'totals_mismatch', 'variants': v, 'attributed': att}})
         return fails
 
     def oracle(self, case, impl):
@@ -1192,10 +1194,12 @@ class C11(Property):
                         b.append('src_indices_repeat_element')
                     if any(not l['flat'] for l in i['levels']):
                         b.append('nonflat_src_indices')
-                    if 'negative' not in b and '-' in canon([l['idx'] for l in i['levels']]):
+                    if '-' in canon([l['idx'] for l in i['levels']]):
                         b.append('negative_src_indices')
                     if chain_positions(sshape, i['levels'][:1]).ndim >= 2:
-                        b.append('nd_index_result')
+                        b.append('nd_index_result_level1')
+                    if chain_positions(sshape, i['levels']).ndim >= 2:
+                        b.append('nd_index_result_final')
                 f = unit_factor(sunits, i['units'])
                 if f is not None:
                     b.append('factor_exact' if (sunits, i['units']) in EXACT_UNITS else 'factor_inexact')
@@ -1330,6 +1334,8 @@ class C11(Property):
             pdo, pdi = paths[v]
             tol = variant_tol(case, v)
             for li, ob in enumerate(r['obs']):
+                jscale, vscale = (None, None) if tol is None else \
+                    _scales(expected_obs(case, ob['k'], ob['cs'], ob['tag'])['J'])
                 if v != 'dict':
                     Jm = []
                     for row in range(n_out):
@@ -1338,24 +1344,24 @@ class C11(Property):
                         rdo_im = mat('do', 'im', pdo, li)[row] if any_cs else [z] * n_out
                         rdi_im = mat('di', 'im', pdi, li)[row] if any_cs else [z] * n_in
                         Jm.extend(zip(rdo_re + rdi_re, rdo_im + rdi_im))
-                    if not _close(_dec(ob['J']), Jm, tol):
+                    if not _close(_dec(ob['J']), Jm, tol, jscale):
                         return '%s step %d: todense differs from the modelled %s/%s path' % (
                             v, ob['tag'], pdo, pdi)
                 fdo = cplx('do', 'fwd_' + pdo, li)
                 fdi = cplx('di', 'fwd_' + pdi, li)
                 fwd = [cadd(a, b) for a, b in zip(fdo, fdi)]
-                if not _close(_dec(ob['fwd']), fwd, tol):
+                if not _close(_dec(ob['fwd']), fwd, tol, vscale):
                     return '%s step %d: forward product differs from the modelled %s/%s path' % (
                         v, ob['tag'], pdo, pdi)
                 if 'rev_o' not in ob:
                     continue
                 rvo = cplx('do', 'rev_' + pdo, li)
-                if not _close(_dec(ob['rev_o']), rvo, tol):
+                if not _close(_dec(ob['rev_o']), rvo, tol, vscale):
                     return '%s step %d: reverse product (outputs) differs from the modelled %s path' % (
                         v, ob['tag'], pdo)
                 rvi = cplx('di', 'rev_' + pdi, li)
                 rvi = [x if e else (z, z) for x, e in zip(rvi, ext)]
-                if not _close(_dec(ob['rev_i']), rvi, tol):
+                if not _close(_dec(ob['rev_i']), rvi, tol, vscale):
                     return '%s step %d: reverse product (inputs) differs from the modelled %s path' % (
                         v, ob['tag'], pdi)
         return None
